@@ -95,6 +95,9 @@ pub fn gen(ctx: &mut Ctx) -> Vec<String> {
         hs.push(("b10000,w0,mi".into(), vec![format!("ins m {}", val_to_wire(x)), format!("ins m {}", val_to_wire(y)), "restart".into()]));
         hs.push(("b10000,w0,mi".into(), vec![format!("ins m {} {}", val_to_wire(x), val_to_wire(y)), "save".into(), "restart".into()]));
         hs.push(("b1,w0,mi".into(), vec![format!("ins m {}", val_to_wire(x)), format!("ins m {}", val_to_wire(y)), "restart".into(), "compact".into(), "restart".into()]));
+        // the column changes kind BETWEEN flushes of one process: every batch file is homogeneous, both values must survive
+        hs.push(("b10000,w0,mi".into(), vec![format!("ins m {}", val_to_wire(x)), "save".into(), format!("ins m {}", val_to_wire(y)), "save".into(), "restart".into()]));
+        hs.push(("b10000,w0,mi".into(), vec![format!("ins m {}", val_to_wire(x)), "save".into(), format!("ins m {}", val_to_wire(y)), "restart".into()]));
         ctx.count("kind_pairs");
     } }
     // 3. random doubles through the WAL and through batches (serde_json round trip, NaN payloads)
